@@ -34,7 +34,7 @@ pub fn ref_ops(group: &str) -> Vec<[f64; 6]> {
             [-1., 0., 0., 1., 0., 0.],
             [1., 0., 0., -1., 0., 0.],
         ],
-        "p2mg" => vec![
+        "p2mg" | "p2mgM" => vec![
             id,
             [-1., 0., 0., -1., 0., 0.],
             [-1., 0., 0., 1., 0.5, 0.],
